@@ -686,8 +686,10 @@ def check(prop_id, spec, tier, specdir):
     ev = {"property_id": prop_id, "tier": tier, "seed": seed, "level": level, "coverage": cov,
           "assumptions": meta.get("assumptions", []) + COMMON_ASSUMPTIONS,
           "wall_s": round(time.time() - t0, 1), "violations": len(violations)}
-    os.makedirs(os.path.join(VERIF, "evidence"), exist_ok=True)
-    json.dump(ev, open(os.path.join(VERIF, "evidence", prop_id + ".json"), "w"), indent=1)
+    # evidence/ describes /repo itself; runs against another checkout (selftests, seeded changes) write elsewhere
+    evdir = os.path.join(VERIF, "evidence") if os.path.realpath(REPO) == "/repo" else os.path.join(VERIF, "replay", "evidence-other-checkout")
+    os.makedirs(evdir, exist_ok=True)
+    json.dump(ev, open(os.path.join(evdir, prop_id + ".json"), "w"), indent=1)
     # clean scratch
     for r in results:
         if r and r.scratch and not os.environ.get("VERIF_KEEP"):
